@@ -308,7 +308,9 @@ pub fn run_check<P: Prop>(prop: &P, tier: Tier, seed: u64) -> i32 {
                 }
             };
             n_corpus += 1;
-            let mut ctx = Ctx { w: &mut w, obs: &mut obs, known: &known, tier, replay: false };
+            // corpus cases are witnesses of repaired defects: no known finding may excuse them
+            let strict = Known::default();
+            let mut ctx = Ctx { w: &mut w, obs: &mut obs, known: &strict, tier, replay: false };
             if let Verdict::Fail(fl) = prop.check(&case, &mut ctx) {
                 violations.push(Violation {
                     sub: format!("corpus:{}", f.file_name().unwrap().to_string_lossy()),
@@ -426,6 +428,8 @@ pub fn run_check<P: Prop>(prop: &P, tier: Tier, seed: u64) -> i32 {
             let found: Mutex<Vec<(usize, Violation)>> = Mutex::new(vec![]);
             let merged: Mutex<Vec<(Obs, u64, u64)>> = Mutex::new(vec![]);
             let gen_rejects = AtomicU64::new(0);
+            // set once some thread has a confirmed, shrunk violation: the others stop shrinking theirs
+            let done = AtomicBool::new(false);
             std::thread::scope(|sc| {
                 for t in 0..threads {
                     let found = &found;
@@ -433,6 +437,7 @@ pub fn run_check<P: Prop>(prop: &P, tier: Tier, seed: u64) -> i32 {
                     let stop = &stop;
                     let known = &known;
                     let gen_rejects = &gen_rejects;
+                    let done = &done;
                     sc.spawn(move || {
                         let part = prop.parts(tier).into_iter().nth(pi).unwrap();
                         let cases = (part.cases as usize).div_ceil(threads) as u32;
@@ -444,15 +449,21 @@ pub fn run_check<P: Prop>(prop: &P, tier: Tier, seed: u64) -> i32 {
                             rng_seed: RngSeed::Fixed(tseed),
                             failure_persistence: None,
                             max_shrink_iters: prop.max_shrink_iters(),
+                            // bounds the effort spent on minimising only; the verdict does not depend on it
+                            max_shrink_time: 90_000,
                             max_global_rejects: 100_000,
                             ..Config::default()
                         });
                         let failed_once = std::cell::Cell::new(false);
+                        let first_failure: std::cell::RefCell<Option<(P::Case, Failure)>> = std::cell::RefCell::new(None);
                         let obs_cell = std::cell::RefCell::new(&mut obs);
                         let w_cell = std::cell::RefCell::new(&mut w);
                         let result = runner.run(&part.strategy, |case| {
                             let mut obs = obs_cell.borrow_mut();
                             let mut w = w_cell.borrow_mut();
+                            if done.load(Ordering::Relaxed) {
+                                return Ok(());
+                            }
                             if !failed_once.get() {
                                 if stop.load(Ordering::Relaxed) {
                                     return Ok(());
@@ -479,6 +490,9 @@ pub fn run_check<P: Prop>(prop: &P, tier: Tier, seed: u64) -> i32 {
                                     Ok(())
                                 }
                                 Verdict::Fail(f) => {
+                                    if !failed_once.get() {
+                                        *first_failure.borrow_mut() = Some((case.clone(), f.clone()));
+                                    }
                                     failed_once.set(true);
                                     obs.frozen = true;
                                     stop.store(true, Ordering::Relaxed);
@@ -491,29 +505,34 @@ pub fn run_check<P: Prop>(prop: &P, tier: Tier, seed: u64) -> i32 {
                         obs.frozen = false;
                         match result {
                             Ok(()) => {}
+                            Err(TestError::Fail(_, _)) if done.load(Ordering::Relaxed) => {}
                             Err(TestError::Fail(_, minimal)) => {
                                 let mut scratch = Obs::default();
                                 let mut ctx = Ctx { w: &mut w, obs: &mut scratch, known, tier, replay: false };
-                                let failure = match prop.check(&minimal, &mut ctx) {
-                                    Verdict::Fail(f) => f,
-                                    other => Failure {
-                                        sub: part.name.clone(),
-                                        expected: String::new(),
-                                        actual: String::new(),
-                                        detail: format!("minimal case did not fail again on re-run ({other:?}); flaky?"),
+                                // confirm the shrunk case; if it does not fail when checked in full, report the
+                                // case that failed first (checks may use a cheaper test while shrinking)
+                                let (case, failure, shrunk) = match prop.check(&minimal, &mut ctx) {
+                                    Verdict::Fail(f) => (minimal, f, true),
+                                    _ => match first_failure.borrow_mut().take() {
+                                        Some((c, f)) => match prop.check(&c, &mut ctx) {
+                                            Verdict::Fail(f2) => (c, f2, false),
+                                            _ => (c, Failure { detail: format!("{} (did not fail again when re-checked)", f.detail), ..f }, false),
+                                        },
+                                        None => unreachable!(),
                                     },
                                 };
                                 found.lock().unwrap().push((
                                     t,
                                     Violation {
                                         sub: part.name.clone(),
-                                        case_json: serde_json::to_value(&minimal).unwrap(),
-                                        describe: prop.describe(&minimal),
+                                        case_json: serde_json::to_value(&case).unwrap(),
+                                        describe: prop.describe(&case),
                                         failure,
-                                        shrunk: true,
+                                        shrunk,
                                         replay_path: None,
                                     },
                                 ));
+                                done.store(true, Ordering::Relaxed);
                             }
                             Err(TestError::Abort(r)) => {
                                 gen_rejects.fetch_add(1, Ordering::Relaxed);
